@@ -14,7 +14,9 @@ def run(tier, seed):
     run = Run("C18", tier, seed)
     rng, q = run.rng, run.quick
     loader.load()
-    tc.mc_structure(run, "C18", geoms_quick=(1, 2))
+    tc.mc_structure(run, "C18", geoms_quick=(1, 2), geoms_thorough=(1, 2, 3, 4), thorough_scale=1)
+    if not q:
+        run.model_check("MC_Structure", "MC_Structure_C18_g2_s2.cfg", timeout=7200)
     recipes = []
     members = tc.generic_members(rng, 1 if q else 5) + tc.part_members(rng, 1 if q else 3) + tc.kit_members(rng, 1 if q else 4)
     for cspec, s, marks in members:
